@@ -2537,11 +2537,20 @@ namespace igris
                 new (&_data[i]) T{};
             }
 
+            for (size_t i = newsize; i < m_size; ++i)
+            {
+                reinterpret_cast<T *>(&_data[i])->~T();
+            }
+
             m_size = newsize;
         }
 
         void clear()
         {
+            for (size_t i = 0; i < m_size; ++i)
+            {
+                reinterpret_cast<T *>(&_data[i])->~T();
+            }
             m_size = 0;
         }
     };
